@@ -43,7 +43,9 @@ def scenarios(rng, P, quick):
 
 
 def outcome(r):
-    return (r.exit, tuple(sorted((p, v[0], v[1], v[2]) for p, v in r.after.items())))
+    """exit status and final files. Directories are not part of it: the property is about targets, backups and reject files, and an
+    empty parent directory which stays behind because its rmdir failed is harmless (the run goes on since the fix for D91)."""
+    return (r.exit, tuple(sorted((p, v[0], v[1], v[2]) for p, v in r.after.items() if v[0] != "d")))
 
 
 def run(R):
